@@ -276,7 +276,7 @@ class Engine:
             last = tgt.split(".")[-1]
             if last and last[0].isupper():
                 return Val(TConst(), ("class", last))
-            if tgt in ("re", "math", "logging", "io", "sys", "os", "string", "textwrap", "click", "yaml"):
+            if tgt in ("re", "math", "logging", "io", "sys", "os", "string", "textwrap", "click", "yaml", "time"):
                 return Val(TConst(), ("module", tgt))
             return Val(TConst(), ("func", tgt))
         if name in mi.functions:
@@ -1625,6 +1625,9 @@ class Engine:
                 ok = is_decimal(x.z)
                 self.guard(s, exc, "ValueError", ok, "int() of non-decimal string", line)
                 return [(s, mk_int(z3.StrToInt(x.z)))]
+            if x.ty == REAL:
+                # int(float) truncates towards zero (floats as reals: infinities and NaN are outside the model)
+                return [(s, mk_int(z3.If(x.z >= 0, z3.ToInt(x.z), -z3.ToInt(-x.z))))]
             raise OutOfSubset(f"int() of {x.ty}")
         if name == "str":
             (x,) = pos
@@ -1770,6 +1773,9 @@ class Engine:
             lst = Val(fty, m[recv.z])
             self.note_list(s, lst)
             return self.builtin_method(s, lst, "append", [pos[0]], {}, exc, node)
+        if mod == "time" and name in ("ctime", "asctime", "strftime"):
+            # text for a message: opaque
+            return [(s, mk_str(smt.fresh("timetext", smt.Str)))]
         if mod == "math" and name == "floor":
             (x,) = pos
             if x.ty == REAL:
